@@ -1021,21 +1021,15 @@ def sc_evolve(tier, rng):
 
 
 def _whatif_fix():
-    """Developer aid (VERIF_C05_WHATIF=fix, never set by the registered commands): apply the two minimal patches
-    proposed in reports/C05.md in memory, to see that the check is green with them."""
+    """Developer aid (VERIF_C05_WHATIF=fix, never set by the registered commands): apply the minimal patch proposed in
+    reports/C05.md in memory (default-typed names are resolved all-or-nothing), to see that the check is green with it."""
     import cflib.crazyflie.log as lg
+    _patch_source(lg.Log, 'add_config', "        for name in logconf.default_fetch_as:\n",
+                  "        _resolved = []\n        for name in logconf.default_fetch_as:\n")
     _patch_source(lg.Log, 'add_config', "            logconf.add_variable(name, var.ctype)\n",
-                  "            logconf.add_variable(name, var.ctype)\n        logconf.default_fetch_as = []\n")
-    _patch_source(lg.LogConfig, '_setup_log_elements',
-                  "                pk.data.append(struct.pack('<B',\n                                           var.get_storage_and_fetch_byte()))\n"
-                  "                pk.data.append(struct.pack('<I', var.address))\n",
-                  "                if pk.available_data_size() < 5:\n                    return False, i\n"
-                  "                pk.data.append(var.get_storage_and_fetch_byte())\n"
-                  "                pk.data.extend(struct.pack('<I', var.address))\n")
-    _patch_source(lg.LogConfig, '_setup_log_elements',
-                  "                pk.data.append(var.get_storage_and_fetch_byte())\n                if self.useV2:",
-                  "                if pk.available_data_size() < 1:\n                    return False, i\n"
-                  "                pk.data.append(var.get_storage_and_fetch_byte())\n                if self.useV2:")
+                  "            _resolved.append((name, var.ctype))\n")
+    _patch_source(lg.Log, 'add_config', "        logconf.default_fetch_as = []\n",
+                  "        for (_n, _t) in _resolved:\n            logconf.add_variable(_n, _t)\n        logconf.default_fetch_as = []\n")
 
 
 _inited = []
@@ -1137,6 +1131,24 @@ def signature(t, clause, at):
     if kind == 'add':
         cls = ('re-add' if any(x['e'] == 'add' and x['c'] == c and x['res'] == 'ok' for x in ev[:at - 1]) else 'first-add')
         cls += '/default-typed' if has_def else ''
+        # an earlier rejected add_config of the same object: what was missing from that session's table
+        sess, why = 0, set()
+        late = []
+        for x in ev[:at - 1]:
+            if x['e'] == 'reconnect':
+                sess += 1
+            elif x['e'] == 'addvar' and x['c'] == c:
+                late.append(x['v'])
+            elif x['e'] == 'add' and x['c'] == c and x['res'] != 'ok':
+                names = {r['n'] for r in t['tocs'][min(sess, len(t['tocs']) - 1)]}
+                for v in cf['vars'] + late:
+                    if v['k'] == 'toc' and v['n'] not in names:
+                        why.add('default-missing' if v['f'] == 0 else 'typed-missing')
+                why = why or {x['res']}
+        if why:
+            cls += '/after-rejected(%s)' % '+'.join(sorted(why))
+        if late:
+            cls += '/late-variable'
     elif kind in ('start', 'stop', 'delete'):
         cls = kind + ('/raw-memory' if has_mem else '/table') + ('' if e['res'] == 'ok' else '/' + e['res'])
     elif kind == 'ack':
@@ -1348,7 +1360,7 @@ BUG_CFGS = ['dup_readd', 'mem_raises', 'skip_on_split', 'size_lt', 'period_le_25
 def _design_checks(tier):
     """exhaustive design-spec checks + every bug configuration (must be refuted), a few TLC runs at a time"""
     from concurrent.futures import ThreadPoolExecutor
-    checks = ['MC_LogBlocks_static_%s.cfg' % tier, 'MC_LogBlocks_life_%s.cfg' % tier, 'MC_LogBlocks_evolve.cfg',
+    checks = ['MC_LogBlocks_static_%s.cfg' % tier, 'MC_LogBlocks_life_%s.cfg' % tier, 'MC_LogBlocks_evolve_%s.cfg' % tier, 'MC_LogBlocks_tables.cfg',
               'MC_LogBlocks_sync.cfg', 'MC_LogBlocks_sync_live.cfg']
     if tier == 'thorough':
         checks.append('MC_LogBlocks_two.cfg')
@@ -1366,7 +1378,7 @@ def _judge_tagged(tagged, variant, nproc):
     o2 = common.Outcome('C05', 'bg', 0)
     common.NCPU = nproc
     mbad, mdrift = judge(o2, tagged, 'mutants and corrupted traces', count=False)
-    return ([(t['id'], clause, at) for (t, clause, at) in mbad], [(t['id'], a) for (t, a) in mdrift], o2.tlc_runs)
+    return ([(t['id'], signature(t, clause, at), at) for (t, clause, at) in mbad], [(t['id'], a) for (t, a) in mdrift], o2.tlc_runs)
 
 
 class _Bg:
@@ -1558,8 +1570,8 @@ def _main(tier, seed, replay=None):
             if id(base) in badset:               # the base trace itself was rejected: the corruption proves nothing
                 per.pop(tagged[idx]['tag'], None)
                 out.sensitivity[tagged[idx]['tag']] = 'skipped (no clean base trace)'
-        # what the unmutated code under test is rejected for does not count as rejecting a mutant
-        baseline = {clause for (_t, clause, _a) in bad}
+        # what the unmutated code under test is rejected for does not count as rejecting a mutant (signatures)
+        baseline = {signature(t, clause, a) for (t, clause, a) in bad}
         for tag in sorted(per):
             n, k, clauses = per[tag]
             out.sensitivity[tag] = '%d of %d traces rejected (%s)' % (k, n, ','.join(sorted(clauses)))
